@@ -38,4 +38,25 @@ SIGS = {
     'api_custom_dist': (['nat', 'str', 'str'], 'Q'),
     'api_gen_pc_n': ([L('Q')], T('bool', 'Q')),
     'api_gen_varpc_n': ([L('Q')], T('bool', 'Q')),
+    # engines
+    'api_kdtree_lev': (['nat', 'nat', O('nat'), STRS], TRIPS),
+    'api_kdtree_ham': (['nat', 'nat', O('nat'), STRS], TRIPS),
+    'api_kdtree_custom': (['nat', 'nat', O('Q'), 'nat', O('nat'), STRS], QTRIPS),
+    'api_hash_lev': (['nat', STRS], TRIPS),
+    'api_hash_ham': (['nat', STRS], TRIPS),
+    'api_hash_custom': (['nat', 'nat', O('Q'), STRS], QTRIPS),
+    'api_lookupdb_lev': (['nat', STRS, STRS], TRIPS),
+    'api_lookupdb_ham': (['nat', STRS, STRS], TRIPS),
+    'api_encode': (['nat', 'str'], L('Z')),
+    # C12
+    'api_lev_nbrs': (['str', 'str'], STRS),
+    'api_ham_nbrs_pos': (['str', L('nat'), 'str'], STRS),
+    'api_next_nearest': (['bool', 'str', 'nat', 'str'], STRS),
+    'api_find_pairs': (['bool', 'str', STRS], L(T('str', 'str'))),
+    'api_neighbor_numbers': (['bool', 'str', STRS, STRS], L('nat')),
+    'api_isdist1': (['bool', 'str', 'str', STRS], 'bool'),
+    'api_ball': (['bool', 'str', 'nat', 'str'], STRS),
+    'api_nndist_ham': (['nat', 'str', STRS], 'nat'),
+    'api_tcrdist_nn': (['nat', 'nat', 'bool', 'Z', 'nat', 'nat', 'nat', 'nat', L(T('str', 'str', 'str', 'str'))], L(T('nat', 'nat', 'Z'))),
+    'api_vtable_labels': (['bool'], STRS),
 }
